@@ -3,9 +3,12 @@ line protocol for C01 (fields separated by TAB; JSON produced by the harness is 
 keys of documents are sorted by their JSON token):
 
   new     <maxPointSize>  <schema>  <backend>  <cache>  <id pool>
-  insert  <batch>  <freeOrder>  <indexOk>
-  update  <batch>  <sizes>      <indexOk>
-  delete  <ids>    <freeOrder>  <iterOrder>  <indexOk>
+  insert  <batch>  <freeOrder>  <indexOk>               → <result> acc=<0|1>
+  update  <batch>  <sizes>      <indexOk>               → <result> acc=<0|1>
+  delete  <ids>    <freeOrder>  <iterOrder>  <indexOk>  → <result> acc=<0|1>
+        <result> is the MODEL's (`Shard.step`); `acc` is the INDEPENDENT predicate `StoreAcceptable` on the
+        reference map (and the index bit); the implementation's line carries `acc=1` iff the real shard took
+        the batch
   state                                   -- the model's two buckets, canonical
   view    <ids>                           -- select-all read of these ids + point count
   read    <id>                            -- read by one id
@@ -21,6 +24,7 @@ appended if the model's own read disagrees with the spec (which `C01_read*` excl
 -/
 import SemaModel.Base.DriverUtil
 import SemaModel.C01.Model
+import SemaModel.C01.AcceptModel
 namespace Sema.C01.Drv
 open Sema Sema.C01
 
@@ -170,13 +174,19 @@ structure St where
   shard : Shard := {}
   coll : Coll := []
 
+/-- a merged document whose size the harness did not supply does NOT fit: a document rendered differently by
+harness and model shows up as a `too-large` disagreement instead of silently fitting -/
 def mkCfg (st : St) (sizes : List (Doc × Nat)) : Cfg :=
-  { maxSize := st.maxSize, size := fun d => (AL.get sizes (canonDoc d)).getD 0 }
+  { maxSize := st.maxSize, size := fun d => (AL.get sizes (canonDoc d)).getD (st.maxSize + 1) }
 
+/-- the model's result and, beside it (`acc=`), the decision of the INDEPENDENT acceptance predicate on the
+reference map: `StoreAcceptable` (AcceptModel.lean; no update loop) and the index bit — the harness prints the
+real verdict there -/
 def apply (st : St) (cfg : Cfg) (op : Op) (o : Oracle) : St × String :=
   let r := st.shard.step cfg op o
   let c := Coll.step cfg st.coll op o.indexOk
-  ({ st with shard := r.1, coll := c.1 }, showOut r.2)
+  let acc := decide (StoreAcceptable cfg st.coll op) && o.indexOk
+  ({ st with shard := r.1, coll := c.1 }, showOut r.2 ++ " acc=" ++ (if acc then "1" else "0"))
 
 def step (st : St) (line : String) : St × String :=
   let bad := (st, "bad-op")
